@@ -8,14 +8,40 @@ open Llir Llir.Enc
 /-- type names the parser keeps verbatim: non-empty and not readable as an integer (see the C11 findings) -/
 def TypeNameOK (n : Bytes) : Prop := n ≠ [] ∧ parseInt64 n = none
 
+theorem parseInt64_of_parseUint63 (n : Bytes) (v : Nat) (h : parseUint63 n = some v) : parseInt64 n = some (Int.ofNat v) := by
+  unfold parseUint63 at h
+  by_cases h1 : n.isEmpty = true
+  · simp [h1] at h
+  · by_cases h2 : n.all isDigit = true
+    · simp only [h1, h2, if_true, Bool.false_eq_true, if_false] at h
+      by_cases h3 : decVal n < 2 ^ 63
+      · simp only [h3, if_true] at h
+        injection h with h; subst h
+        cases n with
+        | nil => simp at h1
+        | cons a r =>
+          have ha : isDigit a = true := List.all_eq_true.mp h2 a (by simp)
+          have h43 : a ≠ 43 := by intro e; subst e; simp [isDigit] at ha
+          have h45 : a ≠ 45 := by intro e; subst e; simp [isDigit] at ha
+          unfold parseInt64
+          split
+          · rename_i heq; cases heq
+          · rename_i heq; injection heq with e _; exact absurd e h43
+          · rename_i heq; injection heq with e _; exact absurd e h45
+          · simp [h2, h3]
+      · simp [h3] at h
+    · simp [h1, h2] at h
+
 theorem decodeTypedef_typeName (n : Bytes) (h : TypeNameOK n) : decodeTypedef (typeName n) = some n := by
   obtain ⟨hne, hp⟩ := h
   unfold decodeTypedef typeName localIdent
   simp only
   have hbody : decodeIdentBody (escapeIdent n) = .name n := by
     unfold escapeIdent
-    by_cases ht : n.all inTail = true
+    by_cases ht : (n.all inTail && !digitLedJunk n) = true
     · simp only [ht, if_true]
+      have ht' : n.all inTail = true := by
+        simp only [Bool.and_eq_true] at ht; exact ht.1
       unfold decodeIdentBody
       have hq : n.head? ≠ some 34 := by
         cases n with
@@ -23,25 +49,29 @@ theorem decodeTypedef_typeName (n : Bytes) (h : TypeNameOK n) : decodeTypedef (t
         | cons a r =>
           simp only [List.head?_cons, ne_eq, Option.some.injEq]
           intro ha
-          have := List.all_eq_true.mp ht a (by simp)
+          have := List.all_eq_true.mp ht' a (by simp)
           subst ha; simp [inTail, inHead, isAlpha, isUpper, isLower, isDigit] at this
-      simp [hp, asmUnquote_plain n hq]
+      cases hu : parseUint63 n with
+      | none => simp [asmUnquote_plain n hq]
+      | some v =>
+        have := parseInt64_of_parseUint63 n v hu
+        rw [hp] at this; cases this
     · simp only [ht, if_false, Bool.false_eq_true]
       unfold decodeIdentBody
-      rw [parseInt64_none_of_quote, asmUnquote_quoted, unescape_escape _ inQuotedIdent_bs]
+      rw [parseUint63_none_of_quote, asmUnquote_quoted, unescape_escape _ inQuotedIdent_bs]
   rw [hbody]
   cases n with
   | nil => exact absurd rfl hne
   | cons a r => simp [getTypeName, hp]
 
-def GlobalOK (g : GlobalDef) : Prop := g.name ≠ [] ∧ ¬ ReadsAsID g.name ∧ g.width ≠ 1
+def GlobalOK (g : GlobalDef) : Prop := g.name ≠ [] ∧ g.width ≠ 1
 
 theorem decodeGlobal_print (useHex : Int → Bool) (g : GlobalDef) (h : GlobalOK g) :
     decodeGlobal (globalName g.name) g.width (litOf useHex g) = some g := by
-  obtain ⟨hne, hg, hw⟩ := h
+  obtain ⟨hne, hw⟩ := h
   obtain ⟨s, hs, hparse⟩ := Props.C09.ident_roundtrip g.width hw g.value (useHex g.value)
   unfold decodeGlobal litOf
-  rw [globalIdent_globalName g.name hne hg, hs]
+  rw [globalIdent_globalName g.name hne, hs]
   simp only [hparse]
 
 theorem collect_print (useHex : Int → Bool) (ts : List Bytes) (gs : List GlobalDef)
